@@ -64,7 +64,12 @@ struct CountLogger : LoggerImpl<FrontendOptions>
 struct Rng
 {
   uint64_t s;
-  explicit Rng(uint64_t seed) : s(seed * 0x9E3779B97F4A7C15ull + 0xC1710961ull) {}
+  // the seed is hashed first: consecutive seeds must not give the same stream shifted by one draw
+  explicit Rng(uint64_t seed) : s(seed ^ 0xC1710961ull)
+  {
+    s = next() ^ (seed << 32);
+    s = next();
+  }
   uint64_t next()
   {
     uint64_t z = (s += 0x9E3779B97F4A7C15ull);
